@@ -28,6 +28,14 @@ import (
 	"pgregory.net/rapid"
 )
 
+func vfC17Backoff(attempt int) time.Duration {
+	d := time.Duration(attempt+1) * 10 * time.Millisecond
+	if d > 500*time.Millisecond {
+		d = 500 * time.Millisecond
+	}
+	return d
+}
+
 type vfC17HLn struct {
 	*LimitListener
 	rig *vfC17Rig
@@ -115,9 +123,18 @@ func TestVerifC17HTTPServe(t *testing.T) {
 		}
 		script := fmt.Sprintf("cap0=%d %v", cap0, steps)
 
-		inner, err := net.Listen("tcp", "127.0.0.1:0")
+		// the kernel picks the port atomically; a transient failure (ephemeral range momentarily
+		// exhausted by other processes) is retried for about 25 s before the case is inconclusive
+		var inner net.Listener
+		var err error
+		for attempt := 0; attempt < 60; attempt++ {
+			if inner, err = net.Listen("tcp", "127.0.0.1:0"); err == nil {
+				break
+			}
+			time.Sleep(vfC17Backoff(attempt))
+		}
 		if err != nil {
-			rt.Fatalf("VF-INCONCLUSIVE cannot listen: %v", err)
+			rt.Fatalf("VF-INCONCLUSIVE cannot listen after 60 attempts: %v", err)
 		}
 		addr := inner.Addr().String()
 		r := &vfC17Rig{open: map[int]net.Conn{}, closed: map[int]net.Conn{}, acc: make(chan struct{}),
@@ -136,9 +153,16 @@ func TestVerifC17HTTPServe(t *testing.T) {
 
 		dial := func(k int) {
 			for i := 0; i < k; i++ {
-				conn, err := net.DialTimeout("tcp", addr, vfC17WaitLong)
+				var conn net.Conn
+				var err error
+				for attempt := 0; attempt < 60; attempt++ {
+					if conn, err = net.DialTimeout("tcp", addr, vfC17WaitLong); err == nil {
+						break
+					}
+					time.Sleep(vfC17Backoff(attempt))
+				}
 				if err != nil {
-					inconclusive = "dial failed: " + err.Error()
+					inconclusive = "dial failed 60 times: " + err.Error()
 					return
 				}
 				r.mu.Lock()
